@@ -96,7 +96,10 @@ def run(ctx):
                     env = {"subst": sub, "prog": prog, "args": {2: addr_, "address": addr_, 3: off_, "offset": off_}, "bool_not": True}
                     try:
                         lab = formula.eval_decision(tree_ao, env)
-                        got = formula.evaluate(lab, env) if lab is not None else None
+                        if isinstance(lab, tuple) and lab and lab[0] == "call" and str(lab[1]).endswith("::from_residual"):
+                            got = ("variant", "None", "core::option::Option", ())          # `?` on a None in a function that answers with an Option
+                        else:
+                            got = formula.evaluate(lab, env) if lab is not None else None
                     except (formula.Unknown, formula.Overflow) as ex:
                         got = "undecided (%s)" % ex
                     want = ("variant", "Some", "core::option::Option", (addr_ + off_,)) if orig_ <= addr_ + off_ < UME else ("variant", "None", "core::option::Option", ())
